@@ -116,8 +116,8 @@ MANIFEST = dict(
          "bystander and table digest, process liveness), including media conversations with wrong-typed payload members through "
          "the real Janus client on a stand-in gateway.",
     note="Trusted: Lean kernel, extractor, harness, the JSON/URL/SDP decoders and websocket/http libraries; backend answers "
-         "are not client input. Three defects found and repaired: dialout response handler nil dereference (e72f1fa), "
-         "process death on a `type` that is not valid UTF-8 (b4fc1ba), leave vs. transient-update deadlock (d70134f, by C14).",
+         "are not client input. Three defects found and repaired: dialout response handler nil dereference (6c2ef8c), "
+         "process death on a `type` that is not valid UTF-8 (6585c31), leave vs. transient-update deadlock (001c654, by C14).",
     technique="Lean 4 proof (case analysis over the dispatch of a total model with explicit crash outcomes, table lemmas by "
               "decide) + regenerated validation/dereference/assertion tables + differential correspondence against the real hub",
 )
